@@ -148,6 +148,10 @@ class LoopCtx:
         self.tag = tag  # 'first' | 'generic'
         self.var = var
 
+    @property
+    def generic(self):
+        return self.tag.startswith("generic")
+
     def __repr__(self):
         return "<Loop %s %s %s@%d>" % (self.kind, self.cx, self.tag, self.node.lineno)
 
@@ -695,7 +699,7 @@ class Interp:
         pre = st.fork()  # zero-iteration state
         for tag in passes:
             elem = elems(tag)
-            self.loops.append(LoopCtx(s, lk, cx, "first" if tag == "first" else "generic", unparse(s.target)))
+            self.loops.append(LoopCtx(s, lk, cx, tag, unparse(s.target)))
             if tag != "first" or not peel:
                 pass
             if tag in ("generic",) and carried:
@@ -1280,6 +1284,9 @@ class Interp:
             return Val("cfgdict", cfg=True, cx=key, extra=key)
         if key in CFG_LIST_KEYS:
             return Val("cfglist", cfg=True, cx=key, extra=key)
+        if key == "mesh_shape":
+            nx, ny = self.mesh_syms("surface")
+            return Val("tuple", items=(num(nx), num(ny), num(3)), cfg=True, cx="options['mesh_shape']", extra=("shape_of", (nx, ny, sp.Integer(3))))
         return Val("cfgval", cfg=True, cx="options[%r]" % key, extra=("option", key))
 
     def mesh_syms(self, cx):
